@@ -136,6 +136,8 @@ def variants_compact():
          ("cm3-compact", linebase("CM3", 160, 192, ["prefer-left", "prefer-up"], pages="{1}", motifs="{FALSE}", vals="{17}", pals="{5}", kinds='{"const", "same", "poke"}'), "cm3toppm", [], {"fmt": "CM3", "w": 320, "h": 192}),
          ("vef-compact", linebase("VEF", 80, 400, ["runs"], veftype=0, vals="{17}", pals="{5}", kinds='{"const", "halves"}'), "veftopng", [], {"fmt": "VEF", "veftype": 0, "w": 320, "h": 200}),
          ("hrs-toy", base("RAW", "HRS", 4 * 4, 4, vals="{17, 35}", lens="{1, 2, 3}", pals="{5}"), "hrstoppm", ["-w", "8", "-r", "4"], {"fmt": "HRS", "w": 8, "h": 4}),
+         # odd width: a row takes (w + 1) / 2 bytes, so a file short by less than a byte per two rows still holds w * h / 2 bytes
+         ("hrs-toy-odd", base("RAW", "HRS", 4 * 6, 4, vals="{17, 35}", lens="{1, 2, 3}", pals="{5}"), "hrstoppm", ["-w", "7", "-r", "6"], {"fmt": "HRS", "w": 7, "h": 6}),
          ("max-toy", base("RAW", "MAX", 2 * 6, 2, vals="{17, 35}", lens="{1, 2, 3}", pals="{5}"), "maxtoppm", ["-w", "16"], {"fmt": "MAX", "mode": "bw", "w": 16, "h": 6}),
          ("max-toy-i", base("RAW", "MAX", 2 * 6, 2, vals="{17, 35}", lens="{1, 2, 3}", pals="{5}"), "maxtoppm", ["-w", "16", "-i", "-br"], {"fmt": "MAX", "mode": "br", "w": 16, "h": 6}),
          ("art-toy", base("RAW", "NEWS", 2 * 6, 2, vals="{17, 35}", lens="{1, 2, 3}", pals="{5}"), "maxtoppm", ["-newsroom"], {"fmt": "MAX", "mode": "bw", "w": 16, "h": 6}),
